@@ -330,13 +330,19 @@ pub struct InternTable { c: std::cell::RefCell<std::collections::HashMap<BDD, Rc
 pub struct TableRef<'a> { r: &'a u8 }
 
 impl InternTable {
+    /// k has an entry in the table (entries are never removed: the shim offers no removal, and code outside the contracts that
+    /// touches the table is rejected by the access scan)
+    pub uninterp spec fn holds(&self, k: BDD) -> bool;
+
     #[verifier::external_body]
     pub fn new(m: FxHashMap<BDD, Rc<BDD>>) -> (r: Self)
         requires table_inv(m@)
     { unimplemented!() }
 
     #[verifier::external_body]
-    pub fn borrow(&self) -> (r: TableRef<'_>) { unimplemented!() }
+    pub fn borrow(&self) -> (r: TableRef<'_>)
+        ensures forall|k: BDD| self.holds(k) ==> !#[trigger] r.absent(k)
+    { unimplemented!() }
     #[verifier::external_body]
     pub fn borrow_mut(&self) -> (r: TableRef<'_>) { unimplemented!() }
 }
